@@ -45,6 +45,40 @@ Theorem C14_used_up : forall ops pe en rf lf d r data res,
 Proof. intros ops. exact (used_up (fst (run init ops))). Qed.
 Print Assumptions C14_used_up.
 
+(* Registrations concurrent with arrivals, and overlapping arrivals.  The operation ParArrive
+   (the same result or reply arrives on several connections at once, racing with one
+   registration for its reference, and once more afterwards) is part of the histories of
+   C14_trace_accepted; the model runs its events in one fixed order.  On the code, lookup + spawn +
+   delete of the callbacks of a counter is one critical section (FeatureLocal.muxResponseCB), and so
+   is a registration, so a real execution is SOME order of these events.  For every order the
+   multiset of invocations (peer blanked) is the same: each callback pending before or registered
+   during the operation exactly once, each result callback once per delivering arrival, and
+   nothing stays pending for the counter.  Conditions: result or data reply, the racing
+   registrations are of distinct callbacks not pending for that counter, the closing arrival
+   delivers (otherwise the outcome legitimately depends on the order). *)
+Theorem C14_par_any_interleaving : forall s d lf r l l' pf,
+  quiet_body (d_body d) = true -> d_ref d = Some r -> local_feature s (d_dst d) = Some lf ->
+  del s d lf pf = true ->
+  NoDup (regs l) -> (forall cb, In cb (regs l) -> ~ In cb (view_r s (lf_ent lf) (lf_id lf) r)) ->
+  Permutation.Permutation l l' ->
+  Permutation.Permutation (map blank (inv (snd (run_evs repaired s d (l ++ [EArr pf])))))
+                          (map blank (inv (snd (run_evs repaired s d (l' ++ [EArr pf]))))) /\
+  view_r (fst (run_evs repaired s d (l ++ [EArr pf]))) (lf_ent lf) (lf_id lf) r = [] /\
+  view_r (fst (run_evs repaired s d (l' ++ [EArr pf]))) (lf_ent lf) (lf_id lf) r = [].
+Proof. exact par_any_interleaving. Qed.
+Print Assumptions C14_par_any_interleaving.
+
+(* what the operation reports is what any interleaving of its arrivals and its registration reports *)
+Theorem C14_par_operation_any_interleaving : forall s ps d late pf lf r l',
+  quiet_body (d_body d) = true -> d_ref d = Some r -> local_feature s (d_dst d) = Some lf ->
+  del s d lf pf = true ->
+  (forall cb, late = Some cb -> ~ In cb (view_r s (lf_ent lf) (lf_id lf) r)) ->
+  Permutation.Permutation (map EArr ps ++ late_evs late) l' ->
+  Permutation.Permutation (inv (snd (step s (ParArrive ps d late pf))))
+                          (map blank (inv (snd (run_evs repaired s d (l' ++ [EArr pf]))))).
+Proof. exact par_op_any_interleaving. Qed.
+Print Assumptions C14_par_operation_any_interleaving.
+
 (* ---- the pinned tree: a response callback on node management is never invoked for a reply ---- *)
 Definition a (d : option N) (e : list N) (f : N) : faddr := {| fa_dev := d; fa_ent := e; fa_feat := Some f |}.
 Definition tree (d : N) : disc_msg :=
@@ -81,7 +115,10 @@ Definition c14_example : list op :=
     Inbound 1 (dg (r1 1) cl 25 (Some 8%N) (BResult 3));                         (* callback 2 and result callback 3 *)
     Inbound 1 (dg (r1 1) cl 26 (Some 8%N) (BResult 0));                         (* only the result callback *)
     Inbound 1 (dg (r1 1) cl 27 None (BResult 0));                               (* no reference: nobody *)
-    Inbound 2 (dg (a (Some 2%N) [0%N] 0) nm 28 (Some 7%N) (BCmd CReply (PUseCase 9))) ].  (* node management: callback 4 *)
+    Inbound 2 (dg (a (Some 2%N) [0%N] 0) nm 28 (Some 7%N) (BCmd CReply (PUseCase 9)));    (* node management: callback 4 *)
+    AddRespCb [1%N] 1 30 5; AddRespCb [1%N] 1 30 6;
+    (* a result referencing 30 on both connections at once, racing with the registration of callback 7 *)
+    ParArrive [1%N; 2%N] (dg (a None [1%N] 1) cl 29 (Some 30%N) (BResult 0)) (Some 7%N) 2 ].
 Example C14_nonvacuous :
   map snd (skipn 6 (snd (run init c14_example))) =
     [ [ORetB true]; [ORetB true]; [ORetB false]; [ORetB true]; []; [ORetB true];
@@ -91,6 +128,9 @@ Example C14_nonvacuous :
       [OInvoke 2 [1%N] 1 8 1 [1%N] 1 3; OInvoke 3 [1%N] 1 8 1 [1%N] 1 3];
       [OInvoke 3 [1%N] 1 8 1 [1%N] 1 0];
       [];
-      [OInvoke 4 [0%N] 0 7 2 [0%N] 0 9] ] /\
+      [OInvoke 4 [0%N] 0 7 2 [0%N] 0 9];
+      [ORetB true]; [ORetB true];
+      [OInvoke 5 [1%N] 1 30 0 [1%N] 1 0; OInvoke 6 [1%N] 1 30 0 [1%N] 1 0; OInvoke 3 [1%N] 1 30 0 [1%N] 1 0;
+       OInvoke 3 [1%N] 1 30 0 [1%N] 1 0; ORetB true; OInvoke 7 [1%N] 1 30 0 [1%N] 1 0; OInvoke 3 [1%N] 1 30 0 [1%N] 1 0] ] /\
   accepted_trace (judge minit (snd (run init c14_example))) = true.
 Proof. vm_compute. split; reflexivity. Qed.
